@@ -37,3 +37,45 @@ Qed.
 (* UIntRange.offset: Seq.get_rel_range *)
 Theorem k_range_offset_eq r o : k_range_offset r o = (do x <- mk_range (rs r + o) (re r + o); Ok x).
 Proof. reflexivity. Qed.
+
+(* ---- Exon.get_codon / get_codon_at: the codon of an exon, clamped to it ---- *)
+Lemma kl_exon_cds_prefix_length_eq e : kl_exon_cds_prefix_length e = cds_prefix_length e.
+Proof. unfold kl_exon_cds_prefix_length, kl_exon_compl_frame, cds_prefix_length, kl_codon_offset_complement, compl_offset. now destruct (x_frame e =? 0), (x_frame e =? 1), (x_frame e =? 2). Qed.
+
+Lemma kl_exon_first_codon_start_eq e s : kl_exon_first_codon_start e s = first_codon_start s e.
+Proof. unfold kl_exon_first_codon_start, first_codon_start. rewrite kl_exon_cds_prefix_length_eq. reflexivity. Qed.
+
+Lemma kl_exon_codon_index_at_eq e s pos : kl_exon_codon_index_at e s pos = codon_index_at s e pos.
+Proof.
+  unfold kl_exon_codon_index_at, codon_index_at. destruct (negb (in_range pos (x_range e))); [reflexivity|].
+  rewrite kl_exon_first_codon_start_eq. destruct (first_codon_start s e); reflexivity.
+Qed.
+
+Lemma kl_get_codon_range_eq s origin ci : kl_get_codon_range s origin ci = codon_range s origin ci.
+Proof.
+  unfold kl_get_codon_range, codon_range. destruct (is_plus s).
+  - replace (origin + 3 * ci + 2) with (origin + 3 * ci + 2) by ring. now destruct (mk_range _ _).
+  - replace (origin - 3 * ci - 2) with (origin - 3 * ci - 2) by ring. now destruct (mk_range _ _).
+Qed.
+
+Lemma mk_range_valid a b r : mk_range a b = Ok r -> range_valid r = true.
+Proof. unfold mk_range, range_valid. destruct ((0 <=? a) && (a <=? b)) eqn:E; [|discriminate]. intros H. injection H as <-. exact E. Qed.
+
+Theorem k_exon_get_codon_eq e s ci : range_valid (x_range e) = true -> k_exon_get_codon e s ci = exon_get_codon s e ci.
+Proof.
+  intros Ve. unfold k_exon_get_codon, exon_get_codon. destruct (Z.ltb_spec ci 0) as [H|H]; [replace (0 <=? ci) with false by lia; reflexivity|].
+  replace (0 <=? ci) with true by lia. rewrite kl_exon_first_codon_start_eq.
+  destruct (first_codon_start s e) as [o|]; cbn [bind]; [|reflexivity].
+  rewrite kl_get_codon_range_eq. destruct (codon_range s o ci) as [r|] eqn:Er; cbn [bind]; [|reflexivity].
+  assert (range_valid r = true) as Vr.
+  { unfold codon_range in Er. destruct (is_plus s); eapply mk_range_valid; exact Er. }
+  rewrite (k_range_intersect_eq r (x_range e) Vr Ve). cbn [bind].
+  destruct (intersect r (x_range e)) as [c|]; [|reflexivity]. destruct ((1 <=? rlen c) && (rlen c <=? 3)); reflexivity.
+Qed.
+
+Theorem k_exon_get_codon_at_eq e s pos : range_valid (x_range e) = true -> k_exon_get_codon_at e s pos = exon_get_codon_at s e pos.
+Proof.
+  intros Ve. unfold k_exon_get_codon_at, exon_get_codon_at. rewrite kl_exon_codon_index_at_eq.
+  destruct (codon_index_at s e pos) as [[k|]|]; cbn [bind]; try reflexivity.
+  rewrite (k_exon_get_codon_eq e s k Ve). destruct (exon_get_codon s e k); reflexivity.
+Qed.
